@@ -1,20 +1,68 @@
 (* Property C13 — every generated TLV model round-trips exactly and matches its generator.
-   Only theorem statements closed by `exact`, each followed by Print Assumptions. *)
-From Codec Require Import Schema Readers Model Spec GenSchemas SchemasWf.
+   Only theorem statements closed by `exact`, each followed by Print Assumptions.
+   Subject: `encode` / `bparse` of Codec/Model.v (the schema-interpreting model of the generated Encode / Parse over a
+   BufferReader) on the schemas of Codec/GenSchemas.v, which are re-translated from the source on every run.
+   The last sentence of the property (generated code = generator output) is a finite direct decision made by the check. *)
+From Codec Require Import Schema Readers Model Spec GenSchemas SchemasWf LeafLemmas Roundtrip Theorems13 LengthExact.
 Open Scope N_scope.
 
-(* the schemas the generator front end parses from the current definitions are well formed *)
+(* the schemas the generator front end parses from the current definitions are well formed (79 models at pin time) *)
 Theorem schemas_wf : forallb schema_wf all_schemas = true.
 Proof. exact all_schemas_wf. Qed.
 Print Assumptions schemas_wf.
 
-(* non-vacuity: a Data-like value of spec_2022 (package 7, model Data) is in the wire domain, encodes and decodes *)
+(* decoding an encoding reproduces the value: any well-formed schema, any model, any value of the wire domain
+   (Spec.wf_value) at any nesting depth, ignoreCritical set or not; `small` = the encoding is shorter than 2^63 bytes *)
+Theorem codec_roundtrip : forall sc, schema_wf sc = true ->
+  forall d fuel mi vs ic, (fuel <= d)%nat -> wf_value fuel sc mi vs = true -> small (encode fuel sc mi vs) ->
+  exists ctx cov, bparse (S d) sc mi ic (br_of (encode fuel sc mi vs)) = Ok (vs, ctx, cov).
+Proof. exact bparse_roundtrip. Qed.
+Print Assumptions codec_roundtrip.
+
+(* ... in particular for every model of every generated package of the tree *)
+Theorem codec_roundtrip_generated : forall sc, In sc all_schemas ->
+  forall d fuel mi vs ic, (fuel <= d)%nat -> wf_value fuel sc mi vs = true -> small (encode fuel sc mi vs) ->
+  exists ctx cov, bparse (S d) sc mi ic (br_of (encode fuel sc mi vs)) = Ok (vs, ctx, cov).
+Proof.
+  exact (fun sc Hin => bparse_roundtrip sc (proj1 (forallb_forall schema_wf all_schemas) all_schemas_wf sc Hin)).
+Qed.
+Print Assumptions codec_roundtrip_generated.
+
+(* encoding yields exactly the number of bytes the encoder announced (every value, in the wire domain or not) *)
+Theorem encode_length_exact : forall fuel sc mi vs, N.of_nat (length (encode fuel sc mi vs)) = enc_len fuel sc mi vs.
+Proof. exact encode_length_exact_all. Qed.
+Print Assumptions encode_length_exact.
+
+(* an unrecognised element (its type number is no field of the model) that is non-critical — or any unrecognised
+   element when the caller asked to ignore critical ones — inserted between any two elements of a valid encoding
+   (an element = one TLV, or the key TLV + value TLV of one map entry) is skipped and every field decodes unchanged;
+   holds for ordered models too (after fix 419053f) *)
+Theorem unknown_noncritical_skipped : forall sc, schema_wf sc = true ->
+  forall d f mi vs ic es1 es2 t pl, (S f <= d)%nat -> wf_value (S f) sc mi vs = true -> small (encode (S f) sc mi vs) ->
+  elements f sc mi vs = es1 ++ es2 ->
+  find_field t 0 (flds (the_model sc mi)) = None -> (ic = true \/ critical t = false) -> t < two64 -> small pl ->
+  exists ctx cov, bparse (S d) sc mi ic (br_of (concat es1 ++ tlv t pl ++ concat es2)) = Ok (vs, ctx, cov).
+Proof. exact bparse_unknown_skipped. Qed.
+Print Assumptions unknown_noncritical_skipped.
+
+(* the elements are the encoding *)
+Theorem elements_are_encoding : forall f sc mi vs, wf_value (S f) sc mi vs = true ->
+  concat (elements f sc mi vs) = encode (S f) sc mi vs.
+Proof. exact concat_elements. Qed.
+Print Assumptions elements_are_encoding.
+
+(* non-vacuity: a Data of spec_2022 (package 7, model 11: ordered, nocopy) is in the wire domain, encodes, decodes,
+   and an unknown element 0xF0 after its Name does not disturb MetaInfo and Content *)
 Example c13_example :
+  schema_wf pkg_std_ndn_spec_2022 = true /\
   wf_value 3 pkg_std_ndn_spec_2022 11
     [VUnit; VUnit; VName [mkc 8 [97]]; VStruct [VNat 0; VNone; VNone]; VBytes [104; 105]; VNone; VNone] = true /\
   decode pkg_std_ndn_spec_2022 11 false
     (encode 3 pkg_std_ndn_spec_2022 11
        [VUnit; VUnit; VName [mkc 8 [97]]; VStruct [VNat 0; VNone; VNone]; VBytes [104; 105]; VNone; VNone])
   = Ok ([VUnit; VUnit; VName [mkc 8 [97]]; VStruct [VNat 0; VNone; VNone]; VBytes [104; 105]; VNone; VNone],
+        [0%Z; 0%Z; 0%Z; 0%Z; 0%Z; 0%Z; 0%Z], [[]; []; []; []; []; []; []]) /\
+  decode pkg_std_ndn_spec_2022 11 false [7; 3; 8; 1; 97; 240; 1; 0; 20; 3; 24; 1; 0; 21; 2; 104; 105]
+  = Ok ([VUnit; VUnit; VName [mkc 8 [97]]; VStruct [VNat 0; VNone; VNone]; VBytes [104; 105]; VNone; VNone],
         [0%Z; 0%Z; 0%Z; 0%Z; 0%Z; 0%Z; 0%Z], [[]; []; []; []; []; []; []]).
-Proof. split; vm_compute; reflexivity. Qed.
+Proof. repeat split; vm_compute; reflexivity. Qed.
